@@ -267,5 +267,6 @@ CHECKS = [
 try:
     from pbt.props import _paths
     CHECKS.append(_paths.make_check('C01'))
+    CHECKS.append(_paths.make_check('C01-multiband'))
 except ImportError:
     pass
